@@ -62,6 +62,31 @@ fn main() {
                 Err(e) => bad = Some(format!("record written at {o3} after truncation is unreadable: {e}")),
             }
         }
+        "replace" => {
+            // header replacement through a long-lived reader; run with the geometry as given and with the second
+            // record's 8-byte head ending exactly at the 64 KiB read-ahead window boundary (header byte beyond it)
+            for straddle in [false, true] {
+                let dir2 = tempfile::tempdir().unwrap();
+                let p2 = dir2.path().join("seg");
+                let st = if straddle { 65536 - 8 - (9 + n1 as u64) } else { start };
+                let mut w = Writer::<1>::create(&p2, 1 << 20, st).unwrap();
+                let mut r = Reader::<1>::open(&p2, Some(w.flushed_offset())).unwrap();
+                let (o1, _) = w.append(&[1], &d1).unwrap();
+                let (o2, _) = w.append(&[2], &d2).unwrap();
+                w.sync().unwrap();
+                r.read_record(o1, ReadHint::Sequential).unwrap();
+                for which in [o2, o1] {
+                    r.replace_header(which, [0xEE]).unwrap();
+                    for off in [which, if which == o1 { o2 } else { o1 }] {
+                        match r.read_record(off, hint) {
+                            Ok(rec) if off != which || rec.header[0] == 0xEE => {}
+                            Ok(rec) => bad = Some(format!("stale header {:?} at {off} after replace_header (straddle={straddle})", rec.header)),
+                            Err(e) => bad = Some(format!("record at {off} unreadable after replace_header at {which} through the same reader: {e} (window-straddling layout: {straddle})")),
+                        }
+                    }
+                }
+            }
+        }
         other => {
             eprintln!("unknown scenario {other}");
             std::process::exit(2);
